@@ -3,7 +3,7 @@
 import json, os, shutil, sys
 pid, X, det, sig = sys.argv[1:5]
 note = sys.argv[5] if len(sys.argv) > 5 else ""
-src = f"/tmp/seed/{pid}/_seeded"
+src = f"{os.environ.get('SEED_BASE', '/tmp/seed')}/{pid}/_seeded"
 dst = f"/verif/seeded/{pid}-{X}"
 os.makedirs(dst, exist_ok=True)
 shutil.copy(f"{src}/{X}.patch", f"{dst}/patch.diff")
@@ -14,7 +14,7 @@ meta = {
     "author": "fresh sub-agent given only the property text and a scratch worktree of /repo (nothing from /verif)",
     "author_tests_run": m.get("tests_run"),
     "confirmed_by_lead": "tools/seedcheck.sh: demo.py exits 0 on a clean worktree of /repo HEAD and non-zero with patch.diff applied",
-    "ran": f"tools/seedcheck.sh /tmp/seed/{pid}/_seeded {X} {det.replace(',', ' ')}  (= ./check <id> --tier quick with VF_REPO pointing at the patched scratch worktree)",
+    "ran": f"tools/seedcheck.sh <scratch>/{pid}/_seeded {X} {det.replace(',', ' ')}  (= ./check <id> --tier quick with VF_REPO pointing at the patched scratch worktree)",
     "detected_by": [] if det == "MISSED" else det.split(","),
     "first_signature": sig, "note": note,
 }
